@@ -101,6 +101,11 @@ func step(state, input, output interface{}) []interface{} {
 			return one(s)
 		}
 		return nil
+	case "readp": // a tag listing seen from one tag: it names the tag iff the tag resolves to something
+		if o.Unknown || (o.Val == "P") == (s != "") {
+			return one(s)
+		}
+		return nil
 	default:
 		ns, pre := apply()
 		switch {
@@ -290,6 +295,7 @@ func history(r *vh.Run, hidx int) {
 			defer wg.Done()
 			crng := rand.New(rand.NewSource(r.Seed*31337 + int64(hidx)*101 + int64(c)))
 			var mine []*vh.Man // artifacts this client pushed
+			lrng := rand.New(rand.NewSource(r.Seed*7919 + int64(hidx)*977 + int64(c))) // a stream of its own: the older choices keep their sequence
 			// the first request of every client goes to a repository nobody has touched yet: concurrent first use
 			{
 				ft := fmt.Sprintf("f%d", c)
@@ -451,6 +457,36 @@ func history(r *vh.Run, hidx int) {
 						o.Val = ""
 					}
 					rc.add(c, t0, t1, in{"tag:" + t, "read", ""}, o)
+					if lrng.Intn(2) == 0 {
+						// the tag listing is a read of every tag at once: per tag "named iff it resolves"; the listing
+						// itself is sorted, without duplicates and names nothing that was never pushed
+						t0 := rc.now()
+						rs := vh.Do(srv, vh.Req{Method: "GET", URL: "/v2/" + repo + "/tags/list"})
+						t1 := rc.now()
+						var tl struct {
+							Tags []string `json:"tags"`
+						}
+						if rs.Status == 200 && json.Unmarshal(rs.Body, &tl) == nil {
+							named := map[string]bool{}
+							for j, x := range tl.Tags {
+								if named[x] || (j > 0 && tl.Tags[j-1] >= x) {
+									r.Violation("listing:order", fmt.Sprintf("a tag listing under concurrent pushes is not sorted or names a tag twice: %v (%s)", tl.Tags, kind), map[string]any{"history": hidx, "listing": tl.Tags})
+								}
+								named[x] = true
+								known := false
+								for _, y := range tags {
+									known = known || x == y
+								}
+								if !known {
+									r.Violation("listing:foreign-tag", fmt.Sprintf("a tag listing names %q, which was never pushed to the repository (%s)", x, kind), map[string]any{"history": hidx, "listing": tl.Tags})
+								}
+							}
+							for _, y := range tags {
+								rc.add(c, t0, t1, in{"tag:" + y, "readp", ""}, out{Val: map[bool]string{true: "P", false: ""}[named[y]]})
+							}
+							r.Count("tag_listing_reads", 1)
+						}
+					}
 				case k < 11: // read a manifest by digest
 					m := pool[crng.Intn(len(pool))]
 					t0 := rc.now()
@@ -709,5 +745,5 @@ func main() {
 	r.Require("histories", int64(n))
 	r.Require("operations", int64(n*40))
 	r.RequireDistinct("overlap_shapes", n/2)
-	r.Finish("short concurrent histories: 4-8 clients x 6-10 operations on one repository (tag pushes of shared and fresh images over 2-3 tags, tag deletes, deletes by digest, artifact pushes to 1-3 shared subjects incl. a missing one, artifact deletes, 2-3 shared artifacts (one of them an index with a subject) that any client pushes again, deletes and probes, a third of the private artifacts are indexes with a subject, a quarter of the histories run with a 25 ms grace period and synchronous pauses so that the cached repository object expires and is reloaded under traffic, reads of tags / manifests / referrers), a background collection loop with a retain-everything policy and a client that keeps creating index entries without content for it to prune, final reads of every tag and shared artifact recorded as the last operations, both stores, seeded jitter before lock acquisitions in the vsync build; every history checked with porcupine (nondeterministic model, partitioned by object) and at quiescence; a case is one history, distinct = distinct interval orders (call/return shapes) with at least two overlapping requests", "histories", "overlap_shapes")
+	r.Finish("short concurrent histories: 4-8 clients x 6-10 operations on one repository (tag pushes of shared and fresh images over 2-3 tags, tag deletes, deletes by digest, artifact pushes to 1-3 shared subjects incl. a missing one, artifact deletes, 2-3 shared artifacts (one of them an index with a subject) that any client pushes again, deletes and probes, a third of the private artifacts are indexes with a subject, a quarter of the histories run with a 25 ms grace period and synchronous pauses so that the cached repository object expires and is reloaded under traffic, reads of tags / manifests / referrers / the tag listing (seen per tag as named-iff-it-resolves)), a background collection loop with a retain-everything policy and a client that keeps creating index entries without content for it to prune, final reads of every tag and shared artifact recorded as the last operations, both stores, seeded jitter before lock acquisitions in the vsync build; every history checked with porcupine (nondeterministic model, partitioned by object) and at quiescence; a case is one history, distinct = distinct interval orders (call/return shapes) with at least two overlapping requests", "histories", "overlap_shapes")
 }
